@@ -1,4 +1,96 @@
-import Gp.Model.PcapNgWrite
-import Gp.Model.PcapNgMem
+import Gp.Lemmas.PcapNgCalls
+import Gp.Lemmas.PcapNgTrunc
+/-
+  C15 (pcapng part) — the pcapng reader is safe on arbitrary and hostile input.
+
+  Model: `Gp/Model/PcapNg.lean` (pcapgo/ngread.go, ngread_nrb.go, ngread_dsb.go, pcapng.go with the
+  fixes pcapng-1…6), written in the `Prog` language of `Gp/Model/PcapNgProg.lean`; allocation
+  behaviour in `Gp/Model/PcapNgMem.lean`.  Go panics (index, divide by zero) are outcomes
+  `Err.panic k` of the model; loops are fuel-bounded and running out of fuel is the outcome
+  `Err.hang`.  All theorems quantify over ALL byte strings, reader options and call sequences.
+
+    openReader cfg inp : NewNgReader on the bytes `inp`
+    readPacket r       : one ReadPacketData(WithOptions) / ZeroCopyReadPacketData(WithOptions) call (the two
+                         differ only in where the data bytes live, which PcapNgMem.lean interprets)
+    nthCall r n        : the (n+1)-th call when the caller keeps calling whatever earlier calls returned
+    PktOK p            : |p.data| = p.ci.caplen ≤ p.ci.len
+    EvOK avail e       : the memory event `e` is backed by a stream that had `avail` bytes left
+    allocBound avail   : 2 * avail + ngMaxPrealloc
+
+  Not modelled (explored by the adapter at run time): how the stream splits into Read calls, injected
+  I/O errors (the model's stream ends with EOF only — see `ng_short_read_surfaces` for what is proved),
+  gzip-wrapped streams (handed to compress/gzip).
+-/
 namespace Gp.C15.PcapNg
+open Gp Gp.PcapNg Gp.Gen.PcapNg
+
+/-- No panic: NewNgReader on ANY bytes with ANY options does not panic, and if it returns a reader then
+    EVERY call of EVERY call sequence on it (copying and zero-copy calls, calls after errors) does not
+    panic either — no index out of range, no divide by zero in convertTime (if_tsresol), no slice bounds. -/
+theorem ng_read_safe (cfg : Cfg) (inp : Bytes) :
+    (∀ k s w, openReader cfg inp ≠ .fail (.panic k) s w) ∧
+    (∀ s w, openReader cfg inp = .ok () s w → ∀ n k s' w', nthCall ⟨s, w⟩ n ≠ .fail (.panic k) s' w') := by
+  have ho := openReader_ok cfg inp
+  constructor
+  · intro k s w h
+    rw [h] at ho
+    cases ho.2
+  · intro s w h n k s' w' hn
+    rw [h] at ho
+    have := nthCall_ok n ⟨s, w⟩ ho
+    rw [hn] at this
+    cases this.2
+
+/-- `ng_read_safe` is not vacuous: a section header followed by an interface description opens. -/
+example : (openReader {} [0x0a, 0x0d, 0x0d, 0x0a, 28, 0, 0, 0, 0x4d, 0x3c, 0x2b, 0x1a, 1, 0, 0, 0,
+      0xff, 0xff, 0xff, 0xff, 0xff, 0xff, 0xff, 0xff, 28, 0, 0, 0,
+      1, 0, 0, 0, 20, 0, 0, 0, 1, 0, 0, 0, 0, 0, 0, 0, 20, 0, 0, 0]).isOk = true := by decide
+
+/-- Every packet returned by any call of any call sequence has |data| = CaptureLength ≤ Length. -/
+theorem ng_packet_lengths (cfg : Cfg) (inp : Bytes) (s : S) (w : Strm) (h : openReader cfg inp = .ok () s w)
+    (n : Nat) (p : Pkt) (s' : S) (w' : Strm) (hn : nthCall ⟨s, w⟩ n = .ok p s' w') :
+    p.data.length = p.ci.caplen ∧ p.ci.caplen ≤ p.ci.len := by
+  have ho := openReader_ok cfg inp
+  rw [h] at ho
+  have := nthCall_ok n ⟨s, w⟩ ho
+  rw [hn] at this
+  exact this.2
+
+/-- No hang: the fuel "bytes left + 1" always suffices — neither NewNgReader nor any call from ANY reader
+    state ever runs a loop out of fuel (every loop iteration that continues has consumed input); a call
+    that returns a packet has consumed at least 8 bytes, no call un-reads input; hence reading until
+    the first failure returns at most |input| / 8 packets and ends with a genuine error. -/
+theorem ng_read_terminates (cfg : Cfg) (inp : Bytes) (r : Rd) :
+    (openReader cfg inp).isHang = false ∧
+    (readPacket r).isHang = false ∧
+    (∀ p s w, readPacket r = .ok p s w → w.inp.length + 8 ≤ r.w.inp.length) ∧
+    (readPacket r).w.inp.length ≤ r.w.inp.length ∧
+    (readAll r).2.1 ≠ .hang ∧ 8 * (readAll r).1.length ≤ r.w.inp.length :=
+  ⟨openReader_nohang cfg inp, readPacket_nohang r, fun _ _ _ h => readPacket_consumes h, readPacket_len_le r,
+   (readAllF_spec _ r (Nat.lt_succ_self _)).1, (readAllF_spec _ r (Nat.lt_succ_self _)).2⟩
+
+/-- Allocation: every memory event of a call (and of NewNgReader) is backed by the stream — what it
+    delivered was present — and every allocation request the reader derives from these events, for the
+    copying (`zero = false`) and the zero-copy call, from ANY buffer state `m`, is at most
+    2 × (bytes present) + ngMaxPrealloc (1 MiB; it also caps the pre-allocation of the declared snap
+    length), whatever capture / secrets / option / record lengths the input declares. -/
+theorem ng_alloc_bounded (cfg : Cfg) (inp : Bytes) (r : Rd) (zero : Bool) (m : Mem) :
+    (∀ e ∈ (readPacket r).w.ev, EvOK r.w.inp.length e) ∧
+    (∀ a ∈ (memRun zero m (readPacket r).w.ev).2, a ≤ allocBound r.w.inp.length) ∧
+    (∀ e ∈ (openReader cfg inp).w.ev, EvOK inp.length e) ∧
+    (∀ a ∈ (memRun zero m (openReader cfg inp).w.ev).2, a ≤ allocBound inp.length) :=
+  ⟨readPacket_events_ok r, memRun_allocs zero _ _ m (readPacket_events_ok r),
+   openReader_events_ok cfg inp, memRun_allocs zero _ _ m (openReader_events_ok cfg inp)⟩
+
+/-- the bound of `ng_alloc_bounded` is the named constant of the source -/
+theorem ng_alloc_bound_const (avail : Nat) : allocBound avail = 2 * avail + 1048576 := rfl
+
+/-- A short read surfaces as an error of the call: if a call needed more than the `k` bytes that are
+    left of a truncated stream, it returns no packet but fails — with io.EOF, io.ErrUnexpectedEOF or an
+    error wrapping one of them (and then the complete run wrapped an error too) — having consumed
+    everything; if it did not need more, it returns exactly what it returns on the complete stream. -/
+theorem ng_short_read_surfaces (f : Nat) (s : S) (w : Strm) (k : Nat) :
+    TruncSpec (run f readPacketP s w) w k (run f readPacketP s (w.trunc k)) :=
+  run_trunc f readPacketP s w k
+
 end Gp.C15.PcapNg
